@@ -116,6 +116,28 @@ def h18c_reader_output(s, low, op, fid, wrap):
     assert tok.items[1 if wrap else 0].value.startswith('"')
 
 
+def h18e_label_reference(c0, c1, c2, n, absolute, rows, same_table):
+    """a reference by header label, rendered by the reader's real name-scoping code (CellRange.expand_ref) for labels that
+    contain operator characters or apostrophes, is accepted by the tokenizer and tokenized losslessly - plain, and inside
+    a function call"""
+    from specs.c09 import NamedModel, Node
+    label = (c0 + c1 + c2)[:n]
+    labels = {7: [label, "p"], 8: [label if not same_table else "q", "r"], 9: ["s", "t"]}
+    m = NamedModel({7: "H", 8: "Tx", 9: "Ty"}, labels, rows)
+    target = 7 if same_table else 8
+    if rows:
+        node = Node(AST_row=Node(row=0, absolute=absolute), NOFIELD_AST_column=Node(column=0, absolute=False),
+                    AST_cross_table_reference_extra_info=Node(table_id=target))
+        text = str(m.node_to_ref(7, 0, 1, node))
+    else:
+        node = Node(AST_column=Node(column=0, absolute=absolute), NOFIELD_AST_row=Node(row=0, absolute=False),
+                    AST_cross_table_reference_extra_info=Node(table_id=target))
+        text = str(m.node_to_ref(7, 1, 0, node))
+    for formula in (text, "SUM(" + text + ")+1"):
+        tok = Tokenizer(formula)          # TokenizerError here is a violation: the reader emitted this text
+        assert "".join([t.value for t in tok.items]) == formula
+
+
 QUOTE_ALPHABET = [(34, 34), (39, 39), (97, 97), (43, 43), (58, 58), (32, 32), (40, 41)]   # " ' a + : space ( )
 
 HARNESSES = [
@@ -173,8 +195,19 @@ def harnesses(tier):
     qs = [4, 5]
     cs = [1] if tier == "quick" else [1, 2]
     names = [_mkn(7)] if tier == "quick" else [_mkn(7), _mkn(8, True)]
+    import numbers_parser.model as modelmod
+    from specs.c09 import NumbersUUIDStub
+    LABEL_ALPHABET = [(97, 97), (45, 45), (39, 39), (32, 32)]          # a - ' space
+    es = [Harness("H18e", h18e_label_reference,
+                  dict(c0=StrDom(1, LABEL_ALPHABET), c1=StrDom(1, LABEL_ALPHABET), c2=StrDom(1, LABEL_ALPHABET),
+                       n=Cases([1, 2] if tier == "quick" else [1, 2, 3]), absolute=Cases([False, True]), rows=Cases([False, True]),
+                       same_table=Cases([False, True])),
+                  bounds="header label of 1..2 (thorough: 3) characters over the alphabet a - ' space (symbolic), relative / absolute, "
+                         "column / row label, target in the host table or another one; the reference alone and inside SUM(...)+1",
+                  stubs=["model stub of C09/H09c (three small tables); the real ScopedNameRefCache / CellRange render the reference"],
+                  patches=[(modelmod, "NumbersUUID", NumbersUUIDStub)])]
     ds = [_mkd(2, 2)] if tier == "quick" else [_mkd(2, 2), _mkd(3, 2), _mkd(3, 3)]
-    return [_mk(n) for n in ns] + [_mkq(n) for n in qs] + names + [_mkc(n) for n in cs] + ds
+    return [_mk(n) for n in ns] + [_mkq(n) for n in qs] + names + [_mkc(n) for n in cs] + ds + es
 
 
 HARNESSES = harnesses("thorough")
